@@ -51,6 +51,15 @@ CHECKS = {
          "Timestamps 0..6, delays {0,1,2,4}, lateness {0,1,2}, all four late-data strategies; wall-clock watermark strategies "
          "(Periodic/Custom) are outside the statement; TLC and the harness projection are trusted.",
          "TLA+ state-machine spec, complete TLC state-graph replayed on the real object (transition cover + all short histories + walks + simulated behaviours)"),
+ "C16": ("model_checking",
+         "TLC checks index-independence of the alpha filter for the bucket-key function as built (and that the Debug-rendered "
+         "key breaks it); the dumped graph of the four machines (alpha index, beta index, memoised evaluator, conclusion index) is "
+         "replayed transition by transition, with all short histories, walks and simulated 10-op behaviours, on the real objects; "
+         "the memo is compared differentially with direct evaluation at every step the spec schedules.",
+         "DESIGN.md §4 C16",
+         "Value universe of 10 look-alike values incl. 0.0/-0.0/NaN; <=2-5 facts; memo oracle is the engine's own evaluate_typed "
+         "(differential); conclusion index checked as a superset claim; TLC and the harness projection are trusted.",
+         "TLA+ state-machine spec, TLC state-graph dump replayed on the real objects (transition cover + all short histories + walks + simulated behaviours)"),
 }
 
 NOT_YET = "check not built yet in this round (see DESIGN.md §9 build order); no claim is made"
